@@ -41,6 +41,7 @@ int  self();                            // simulated thread id (0 = scenario mai
 long now_ns();                          // virtual time since run start
 long step();                            // global scheduling-point counter (history stamp)
 void advance_time(long ns);             // scenario-driven clock jump
+unsigned long thread_blocks();          // how often the calling thread parked in a blocking primitive (mutex, condvar, futex, join, sleep)
 
 // ---------------------------------------------------------------- heap accounting
 unsigned long live_blocks();
